@@ -47,8 +47,12 @@ def _call(a):
                 return "integer-typed coordinates %s give %s / %s, the same point as floats gives %s" % (ints, a, b, c)
         k = int(abs(pos[0] * 1000)) % 3
         p1 = [list, np.array, list][k](pos)
+        # the name as users type it: as tabulated, lower case, upper case, with blanks (the lookup is documented as insensitive
+        # to case and whitespace; the trailing r of the rhombohedral settings is part of the name in every spelling)
+        k2 = int(abs(pos[1] * 1000) + abs(pos[2] * 100)) % 4
+        nm = [name, name.lower(), name.upper(), " " + " ".join(name) + " "][k2]
         return (structure.multiplicity(p1, sgno=no if k else np.int64(no), cell_choice=setting),
-                structure.multiplicity(np.array(pos), sgname=name))
+                structure.multiplicity(np.array(pos), sgname=nm))
     except Exception as ex:
         return repr(ex)
 
